@@ -233,6 +233,7 @@ package snaps
 //@   ensures (r == "") == (diff == "")
 //@   ensures [header_lines] diff == "" ==> nDelPrinted == old(nDelPrinted) && nInsPrinted == old(nInsPrinted)
 //@   ensures [header_lines2] diff != "" ==> nDelPrinted == old(nDelPrinted) + 1 && nInsPrinted == old(nInsPrinted) + 1
+//@   ensures [header_counts] diff != "" && colors.NOCOLOR ==> prefixof("\n- Snapshot ", r) && contains(r, "- " + itoa(deleted) + "\n+ Received ") && contains(r, "+ " + itoa(inserted) + "\n\n" + diff + "\n")
 //@
 //@ func getUnifiedDiff(a, b) returns (r, inserted, deleted)
 //@   mode lines
